@@ -15,10 +15,16 @@ Driver for C19.
               `ParallelConfig::default()` (with the case's max_threads; needs enabled=1, min_rules=2); bits 3-4 how the harness
               builds the facts (add_value / set+set_nested / from_context / merge+snapshot+restore) — the model has none of
               these: the flags must not change anything
+              the token may carry a slow-worker suffix `w<worker>.<step|p>.<ms>` (the harness makes that worker of the first
+              parallelised level sleep <ms> ms before its <step>-th rule / before it publishes): the model has no clock —
+              the suffix must not change anything
+     rule name := plain | `%L<pad>.<w>.<k>` (pad ASCII bytes then k characters of w bytes) | `%h<hex>` (any UTF-8 text):
+              opaque identifiers for the model (the harness decodes them; distinct tokens are distinct names).  A rule whose
+              name already occurs earlier in the same knowledge base is rejected by `KnowledgeBase::add_rule` and is not there
      every further `<facts> <rules>` pair is one more *stage*: another knowledge base (same name) and other facts run
      through the SAME two engine objects, in order
   obs  := stage ` ;; ` stage …      stage := `S:<run> P:<run> P:<run> …`
-     run := `ok/<evaluated>/<fired>/<name=0|1,…>/<facts sorted>` | `err` | `panic` | `timeout`
+     run := `ok/<evaluated>/<fired>/<name=0|1,…>/<facts sorted>` | `err` | `panic` | `timeout` | `slow-not-taken`
   drv_c19 model  : case        ↦ per stage `S:<run> P:<run>`  (S = sequential path; P = the configured engine under a
                                   pseudo-random interleaving derived from pseed — compared as a multiset)
   drv_c19 oracle : case | obs  ↦ `ok <tags>` / `fail [K<stage>:]<run>:<clause>`   (Spec.runOk / Spec.sameAsRun on the
@@ -163,12 +169,18 @@ def parseRule (s : String) : Option CRule :=
 structure Stage where
   facts : Facts
   rules : List CRule
+  /-- some rule of the case text was rejected by `add_rule` (its name was taken) -/
+  dups : Bool := false
+  /-- the names as written, rejected ones included -/
+  names : List String := []
 
 structure Case where
   cfg : Config
   pseed : Nat
   debug : Nat
   stages : List Stage
+  /-- the case asks the harness to delay one worker (slow-worker family) -/
+  slow : Bool := false
 
 def condArith : Cond → Bool
   | .leafExpr _ _ (.arith ..) => true
@@ -197,10 +209,41 @@ def leafOp? : Cond → Option Op
   | .leafExpr _ o _ => some o
   | _ => none
 
+/-- `KnowledgeBase::add_rule` rejects a rule whose name is already in the knowledge base (whatever its salience or
+enabled flag): only the first rule of every name is there -/
+def dedupNames (rs : List CRule) : List CRule :=
+  (rs.foldl (fun (acc : List CRule) r => if acc.any (·.name == r.name) then acc else r :: acc) []).reverse
+
 def parseStage (facts rules : String) : Option Stage := do
   let facts ← parseFacts facts
   let rules ← if rules = "-" then some [] else (rules.splitOn ";").mapM parseRule
-  pure { facts := canonFacts facts, rules := rules }
+  let kept := dedupNames rules
+  pure { facts := canonFacts facts, rules := kept, dups := kept.length != rules.length, names := rules.map (·.name) }
+
+/-- the slow-worker suffix of the flags token: `w<worker>.<step|p>.<ms>` -/
+def slowOk (l : List Char) : Bool :=
+  match l with
+  | 'w' :: rest =>
+    match (String.ofList rest).splitOn "." with
+    | [t, st, ms] => t.toNat?.isSome && (st = "p" || st.toNat?.isSome) && ms.toNat?.isSome
+    | _ => false
+  | _ => false
+
+/-- (byte length, has a non-ASCII byte) of the name a `%L…` / `%h…` token stands for -/
+def nameInfo (n : String) : Option (Nat × Bool) :=
+  if n.startsWith "%L" then
+    match ((n.drop 2).toString.splitOn ".").map String.toNat? with
+    | [some p, some w, some k] => some (p + w * k, w > 1 && k > 0)
+    | _ => none
+  else if n.startsWith "%h" then
+    let h := (n.drop 2).toString.toList
+    if h = ['-'] then some (0, false) else
+    let rec hi (l : List Char) : Bool :=
+      match l with
+      | a :: _ :: rest => "89abcdef".toList.contains a || hi rest
+      | _ => false
+    some (h.length / 2, hi h)
+  else none
 
 def parseStages : List String → Option (List Stage)
   | [] => some []
@@ -217,15 +260,18 @@ def parseCase (line : String) : Option Case :=
     let mr ← mr.toNat?
     let pseed ← pseed.toNat?
     let st0 ← parseStage facts rules
-    let (dbg, more) ← match rest with
-      | [] => some (0, [])
+    let dbg ← match rest with
+      | [] => some (0, false, [])
       | d :: more =>
         if d.startsWith "d" then
-          match (d.drop 1).toString.toNat? with
-          | some k => if k < 32 then (parseStages more).map fun m => (k, m) else none
+          let body := (d.drop 1).toString.toList
+          let sfx := body.dropWhile Char.isDigit
+          match (String.ofList (body.takeWhile Char.isDigit)).toNat? with
+          | some k => if k < 32 && (sfx.isEmpty || slowOk sfx) then (parseStages more).map fun m => (k, !sfx.isEmpty, m) else none
           | none => none
         else none
-    let c : Case := { cfg := ⟨en = "1", mt, mr⟩, pseed := pseed, debug := dbg, stages := st0 :: more }
+    let (dbg, slow, more) := (dbg.1, dbg.2.1, dbg.2.2)
+    let c : Case := { cfg := ⟨en = "1", mt, mr⟩, pseed := pseed, debug := dbg, stages := st0 :: more, slow := slow }
     -- bit 2 of the flags = `ParallelConfig::default()` (enabled, min_rules_per_thread 2) with the case's max_threads
     if dbg / 4 % 2 = 1 && !(c.cfg.enabled && mr = 2) then none
     -- arithmetic right-hand sides are computed in f64 by the engine: exact as long as the numbers stay small
@@ -348,6 +394,8 @@ def checkStage (cfg : Config) (st : Stage) (runs : List String) : Except String 
             if expectPanic then
               if body = "panic" then check (i + 1) rest reordered else .error s!"fail P{i}:expected-panic"
             else
+              -- the configured engine returned Err where its sequential path (S, checked above) returned Ok
+              if body = "err" then .error s!"fail P{i}:err" else
               match parseRun body with
               | none => .error s!"fail P{i}:notok({body.takeWhile (· != '/')})"
               | some o =>
@@ -398,8 +446,21 @@ def checkStage (cfg : Config) (st : Stage) (runs : List String) : Except String 
           let shadowed := flat.any fun p => facts.any fun q => flatKey q.1 == p.1 && q.2 != p.2
           let flatFirst : Facts := flat.map (fun p => ((p.1.drop 1).toString, p.2)) ++ facts
           let flatSensitive := rules.any fun r => r.enabled && r.cond.eval facts != r.cond.eval flatFirst
+          let infos := st.names.filterMap nameInfo
+          -- a fired rule with a long non-ASCII name on a level that really runs on worker threads
+          let longFiredPar := cfg.maxThreads != 0 && anyLevel rules fun l =>
+            shouldParallelize cfg l.length && l.any fun r => r.cond.eval facts &&
+              (match nameInfo r.name with | some (n, na) => n > 40 && na | none => false)
           .ok <|
             (if par then ["par"] else ["seq_only"])
+            ++ (if st.names.any (·.startsWith "%") then ["unusual_rule_names"] else [])
+            ++ (if infos.any (fun i => i.1 > 40) then ["rule_name_gt_40B"] else [])
+            ++ (if infos.any (fun i => i.1 > 64) then ["rule_name_gt_64B"] else [])
+            ++ (if infos.any (fun i => i.1 > 255) then ["rule_name_gt_255B"] else [])
+            ++ (if infos.any (fun i => i.2) then ["rule_name_non_ascii"] else [])
+            ++ (if infos.any (fun i => i.1 == 0) then ["rule_name_empty"] else [])
+            ++ (if longFiredPar then ["long_non_ascii_name_fires_on_worker"] else [])
+            ++ (if st.dups then ["duplicate_name_rejected_by_add_rule"] else [])
             ++ (if !flat.isEmpty then ["flat_dotted_key"] else [])
             ++ (if shadowed then ["flat_key_shadowed_by_nested_field"] else [])
             ++ (if flatSensitive then ["verdict_depends_on_nested_first"] else [])
@@ -457,6 +518,7 @@ def oracleLine (line : String) : String :=
             | [] => false
           joinSp ("ok" :: tags
             ++ (if !c.cfg.enabled then ["parallelism_off"] else [])
+            ++ (if c.slow then ["slow_worker"] else [])
             ++ (if c.debug % 2 = 1 then ["debug_mode"] else [])
             ++ (if c.debug / 2 % 2 = 1 then ["debug_mode_seq"] else [])
             ++ (if c.debug / 4 % 2 = 1 then ["default_config"] else [])
